@@ -137,8 +137,9 @@ def r06_2(ctx: Ctx):
 
             defs = local_defs(f).get(src.id, [])
             src_ok = bool(defs) and all(is_self_attr(_iter_source_attr(d), "active_demes", selfn) for d in defs)
+        opaque = isinstance(src, ast.Call) and isinstance(src.func, ast.Attribute) and isinstance(src.func.value, ast.Name) and src.func.value.id == selfn
         if not src_ok:
-            obs.append(ctx.ob("R06.2", f, loop, status=VIOLATION, detail=f"the stepping loop iterates `{norm(loop.iter)}`, not the active_demes accessor", construct=norm(loop.iter)))
+            obs.append(ctx.ob("R06.2", f, loop, status=INCONCLUSIVE if opaque else VIOLATION, detail=f"the stepping loop iterates `{norm(loop.iter)}`, not the active_demes accessor", construct=norm(loop.iter)))
         else:
             obs.append(ctx.ob("R06.2", f, loop, detail="stepping loop iterates active_demes", construct=norm(loop.iter)))
         # receiver is the loop variable, argument is the tree
@@ -233,12 +234,7 @@ def append_summary(ctx: Ctx, f, _stack=()):
         return outs
 
     at, exits, parent = typestate(cfg, [0], node_fn)
-    res = set()
-    for p, lab in cfg.exit.pred:
-        if lab == "raise":
-            continue
-        for s in at[p.id]:
-            res |= set(node_fn(p, s))
+    res = exits.normal()
     return res or {0}
 
 
@@ -344,14 +340,7 @@ def r06_4(ctx: Ctx):
             n = unknown[0]
             obs.append(ctx.ob("R06.4", f, n.stmt, status=INCONCLUSIVE, detail="stop condition consulted inside a compound expression", construct=n.label))
             continue
-        normal = set()
-        for p, lab in cfg.exit.pred:
-            if lab == "raise":
-                continue
-            for s in at[p.id]:
-                for s2 in node_fn(p, s):
-                    s3 = edge_fn(p, lab, s2)
-                    normal.add(s3)
+        normal = exits.normal()
         one_shot = bool(normal) and all(s[4] for s in normal) and all(not (s[0] or s[1] is True or s[2]) or True for s in normal) and not any(cond_consult(ctx, f, n, "gsc") or cond_consult(ctx, f, n, "lsc") for n in cfg.nodes)
         seen = set()
         if one_shot:
